@@ -398,7 +398,7 @@ class C20(Check):
             'variety (values, amounts, throughputs). A segment is non-trivial if the clock did not advance '
             '(the operation completed within one time step); distinct by (case, segment). exhaustive=true refers '
             'to the table.') % len(OPS)
-    budgets = {'quick': dict(examples=300, procs=4), 'thorough': dict(examples=20000, procs=16)}
+    budgets = {'quick': dict(examples=300, procs=4), 'thorough': dict(examples=200000, procs=16)}
     level_text = ('For every listed operation in every state where it can complete without waiting, the activations '
                   'between its start and its completion are inspected: either the clock advanced or every other '
                   'runnable activity had a turn. The table is enumerated completely; parameters are sampled.')
